@@ -564,3 +564,374 @@ Proof.
   induction es as [|e es IH]; intros v Hw Hok; [exact Hw|].
   inversion Hok; subst. cbn [apply_all fold_left]. apply IH; [now apply winv_apply|assumption].
 Qed.
+
+(** * 6. The snapshot rebuilds the version *)
+
+Lemma apply_all_cons v e es : apply_all v (e :: es) = apply_all (apply v e) es.
+Proof. reflexivity. Qed.
+
+Lemma adds_level_files fs : forall A k lv,
+  Forall (fun f => fm_level f = k) fs ->
+  level_files (apply_all A (map EAddFile fs)) lv = (if lv =? k then level_files A lv ++ fs else level_files A lv)
+  /\ rest_of (apply_all A (map EAddFile fs)) = rest_of A.
+Proof.
+  induction fs as [|f fs IH]; intros A k lv Hk.
+  - cbn [map apply_all fold_left]. split; [destruct (lv =? k); [now rewrite app_nil_r|reflexivity]|reflexivity].
+  - inversion Hk as [|? ? Hf Hfs]; subst. cbn [map]. rewrite apply_all_cons.
+    destruct (IH (apply A (EAddFile f)) (fm_level f) lv Hfs) as [H1 H2]. rewrite H1, H2. split.
+    + rewrite level_files_add. destruct (lv =? fm_level f); [now rewrite <- app_assoc|reflexivity].
+    + now apply rest_file_edit.
+Qed.
+
+Definition files_of (L : list (N * list file_meta)) (lv : N) : list file_meta :=
+  concat (map (fun lf => if fst lf =? lv then sort_files (snd lf) else []) L).
+
+Definition level_adds (L : list (N * list file_meta)) : list edit :=
+  concat (map (fun lf => map EAddFile (sort_files (snd lf))) L).
+
+Lemma level_adds_files L : forall A lv,
+  (forall k fs, In (k, fs) L -> Forall (fun f => fm_level f = k) fs) ->
+  level_files (apply_all A (level_adds L)) lv = level_files A lv ++ files_of L lv
+  /\ rest_of (apply_all A (level_adds L)) = rest_of A.
+Proof.
+  induction L as [|[k fs] L IH]; intros A lv Hk.
+  - cbn. now rewrite app_nil_r.
+  - unfold level_adds, files_of. cbn [map concat fst snd]. rewrite apply_all_app.
+    fold (level_adds L). fold (files_of L lv).
+    assert (Hs : Forall (fun f => fm_level f = k) (sort_files fs)).
+    { rewrite Forall_forall. intros x Hx. apply (proj1 (in_sort x fs)) in Hx.
+      specialize (Hk k fs (or_introl eq_refl)). rewrite Forall_forall in Hk. exact (Hk x Hx). }
+    destruct (adds_level_files (sort_files fs) A k lv Hs) as [H1 H2].
+    destruct (IH (apply_all A (map EAddFile (sort_files fs))) lv) as [H3 H4].
+    { intros k' fs' Hi. apply (Hk k' fs'). now right. }
+    rewrite H3, H4, H1, H2. split; [|reflexivity].
+    rewrite (N.eqb_sym k lv). destruct (lv =? k); [now rewrite <- app_assoc|reflexivity].
+Qed.
+
+Lemma files_of_above L lv : above N.ltb lv L -> files_of L lv = [].
+Proof.
+  unfold files_of. induction L as [|[k fs] L IH]; intro Ha; [reflexivity|].
+  inversion Ha as [|? ? H1 H2]; subst. cbn [map concat fst snd] in *.
+  replace (k =? lv) with false by lia. now rewrite IH.
+Qed.
+
+Lemma files_of_sorted L lv :
+  Nsorted L -> files_of L lv = sort_files (match lookup N.eqb lv L with Some fs => fs | None => [] end).
+Proof.
+  induction L as [|[k fs] L IH]; intro Hs; [reflexivity|]. destruct Hs as [Ha Hs].
+  unfold files_of. cbn [map concat fst snd lookup]. fold (files_of L lv).
+  rewrite (N.eqb_sym k lv). destruct (lv =? k) eqn:E.
+  - apply N.eqb_eq in E. subst. rewrite files_of_above by exact Ha. now rewrite app_nil_r.
+  - cbn [app]. now apply IH.
+Qed.
+
+Lemma level_files_nonfile es : forall v lv,
+  forallb (fun e => negb (is_file_edit e)) es = true -> level_files (apply_all v es) lv = level_files v lv.
+Proof.
+  induction es as [|e es IH]; intros v lv H; [reflexivity|]. cbn [forallb] in H. apply andb_true_iff in H as [H1 H2].
+  rewrite apply_all_cons, IH by exact H2. apply level_files_other. now destruct (is_file_edit e).
+Qed.
+
+Lemma rest_congr_all es : forall a b, rest_of a = rest_of b -> rest_of (apply_all a es) = rest_of (apply_all b es).
+Proof.
+  induction es as [|e es IH]; intros a b H; [exact H|]. rewrite !apply_all_cons. apply IH. now apply rest_congr.
+Qed.
+
+Definition upd_edit (x : (N * N) * vlog_meta) : edit := EVlogUpdate (Some (snd x)).
+Definition head_edit (x : N * vlog_meta) : edit := EVlogHead (Some (snd x)).
+Definition raft_edit (x : N * raft_ptr) : edit := ERaftPointer (Some (snd x)).
+Definition region_edit_of (x : N * region_meta) : edit := ERegion (Some {| re_meta := snd x; re_delete := false |}).
+
+Notation Pupsert_append := (upsert_append pair_ltb pair_eqb Peqb_spec Pltb_irrefl Pltb_trans).
+Notation Nupsert_append := (upsert_append N.ltb N.eqb Neqb_spec Nltb_irrefl Nltb_trans).
+
+Lemma apply_upds S : forall X,
+  v_heads X = [] -> Psorted (v_vlogs X ++ S) ->
+  (forall k m, In (k, m) S -> k = (vl_bucket m, vl_fid m)) ->
+  apply_all X (map upd_edit S) = set_vlog X (v_vlogs X ++ S) [].
+Proof.
+  induction S as [|[k m] S IH]; intros X Hh Hs Hk.
+  - cbn [map apply_all fold_left]. rewrite app_nil_r. destruct X. cbn in *. now subst.
+  - cbn [map]. rewrite apply_all_cons. unfold upd_edit at 1. cbn [snd].
+    assert (Ek : k = (vl_bucket m, vl_fid m)) by (apply Hk; now left).
+    assert (Ea : apply X (EVlogUpdate (Some m)) = set_vlog X (v_vlogs X ++ [(k, m)]) []).
+    { cbn [apply]. unfold head_is. rewrite Hh. cbn [lookup]. rewrite <- Ek.
+      rewrite Pupsert_append; [reflexivity|]. eapply sorted_app_below. exact Hs. }
+    rewrite Ea, IH.
+    + unfold set_vlog. cbn. now rewrite <- app_assoc.
+    + reflexivity.
+    + cbn [set_vlog v_vlogs]. now rewrite <- app_assoc.
+    + intros k' m' Hi. apply Hk. now right.
+Qed.
+
+Lemma apply_heads S : forall X,
+  Psorted (v_vlogs X) -> Nsorted (v_heads X ++ S) ->
+  (forall b h, In (b, h) S -> b = vl_bucket h /\ vl_valid h = true /\
+                              lookup pair_eqb (vl_bucket h, vl_fid h) (v_vlogs X) = Some h) ->
+  apply_all X (map head_edit S) = set_vlog X (v_vlogs X) (v_heads X ++ S).
+Proof.
+  induction S as [|[b h] S IH]; intros X Hv Hs Hk.
+  - cbn [map apply_all fold_left]. rewrite app_nil_r. now destruct X.
+  - cbn [map]. rewrite apply_all_cons. unfold head_edit at 1. cbn [snd].
+    destruct (Hk b h (or_introl eq_refl)) as (E1 & E2 & E3).
+    assert (Eh : {| vl_bucket := vl_bucket h; vl_fid := vl_fid h; vl_offset := vl_offset h; vl_valid := true |} = h).
+    { destruct h. cbn in *. now subst. }
+    assert (Ea : apply X (EVlogHead (Some h)) = set_vlog X (v_vlogs X) (v_heads X ++ [(b, h)])).
+    { cbn [apply]. rewrite Eh.
+      rewrite (upsert_same pair_ltb pair_eqb Peqb_spec Pltb_irrefl Pltb_trans _ _ _ Hv E3).
+      rewrite <- E1. rewrite Nupsert_append; [reflexivity|]. eapply sorted_app_below. exact Hs. }
+    rewrite Ea, IH.
+    + unfold set_vlog. cbn. now rewrite <- app_assoc.
+    + exact Hv.
+    + cbn [set_vlog v_heads]. now rewrite <- app_assoc.
+    + intros b' h' Hi. cbn [set_vlog v_vlogs]. apply Hk. now right.
+Qed.
+
+Definition set_rafts (v : version) r := {| v_levels := v_levels v; v_logseg := v_logseg v; v_logoff := v_logoff v;
+  v_vlogs := v_vlogs v; v_heads := v_heads v; v_rafts := r; v_regions := v_regions v |}.
+Definition set_regions (v : version) r := {| v_levels := v_levels v; v_logseg := v_logseg v; v_logoff := v_logoff v;
+  v_vlogs := v_vlogs v; v_heads := v_heads v; v_rafts := v_rafts v; v_regions := r |}.
+
+Lemma apply_rafts S : forall X,
+  Nsorted (v_rafts X ++ S) -> (forall g r, In (g, r) S -> g = rp_group r) ->
+  apply_all X (map raft_edit S) = set_rafts X (v_rafts X ++ S).
+Proof.
+  induction S as [|[g r] S IH]; intros X Hs Hk.
+  - cbn [map apply_all fold_left]. rewrite app_nil_r. now destruct X.
+  - cbn [map]. rewrite apply_all_cons. unfold raft_edit at 1. cbn [snd].
+    assert (Eg : g = rp_group r) by (apply Hk; now left).
+    assert (Ea : apply X (ERaftPointer (Some r)) = set_rafts X (v_rafts X ++ [(g, r)])).
+    { cbn [apply]. rewrite <- Eg. rewrite Nupsert_append; [reflexivity|]. eapply sorted_app_below. exact Hs. }
+    rewrite Ea, IH.
+    + unfold set_rafts. cbn. now rewrite <- app_assoc.
+    + cbn [set_rafts v_rafts]. now rewrite <- app_assoc.
+    + intros g' r' Hi. apply Hk. now right.
+Qed.
+
+Lemma apply_regions S : forall X,
+  Nsorted (v_regions X ++ S) -> (forall i m, In (i, m) S -> i = rg_id m) ->
+  apply_all X (map region_edit_of S) = set_regions X (v_regions X ++ S).
+Proof.
+  induction S as [|[i m] S IH]; intros X Hs Hk.
+  - cbn [map apply_all fold_left]. rewrite app_nil_r. now destruct X.
+  - cbn [map]. rewrite apply_all_cons. unfold region_edit_of at 1. cbn [snd].
+    assert (Ei : i = rg_id m) by (apply Hk; now left).
+    assert (Ea : apply X (ERegion (Some {| re_meta := m; re_delete := false |})) = set_regions X (v_regions X ++ [(i, m)])).
+    { cbn [apply re_delete re_meta]. rewrite <- Ei. rewrite Nupsert_append; [reflexivity|]. eapply sorted_app_below. exact Hs. }
+    rewrite Ea, IH.
+    + unfold set_regions. cbn. now rewrite <- app_assoc.
+    + cbn [set_regions v_regions]. now rewrite <- app_assoc.
+    + intros i' m' Hi. apply Hk. now right.
+Qed.
+
+Notation Nin_lookup := (in_lookup N.ltb N.eqb Neqb_spec Nltb_irrefl).
+Notation Pin_lookup := (in_lookup pair_ltb pair_eqb Peqb_spec Pltb_irrefl).
+
+Lemma snapshot_edits_shape v :
+  snapshot_edits v = level_adds (v_levels v) ++ [ELogPointer (v_logseg v) (v_logoff v)] ++
+    map upd_edit (v_vlogs v) ++ map head_edit (v_heads v) ++ map raft_edit (v_rafts v) ++ map region_edit_of (v_regions v).
+Proof. reflexivity. Qed.
+
+(** replaying the snapshot of [v] gives [v] with every level sorted by id *)
+Lemma snapshot_rebuilds v :
+  winv v ->
+  let v' := apply_all empty_version (snapshot_edits v) in
+  (forall lv, level_files v' lv = sort_files (level_files v lv)) /\ rest_of v' = rest_of v.
+Proof.
+  intro Hw. cbn zeta. rewrite snapshot_edits_shape, apply_all_app.
+  set (A1 := apply_all empty_version (level_adds (v_levels v))).
+  set (R := [ELogPointer (v_logseg v) (v_logoff v)] ++ map upd_edit (v_vlogs v) ++ map head_edit (v_heads v) ++
+            map raft_edit (v_rafts v) ++ map region_edit_of (v_regions v)).
+  assert (HL : forall k fs, In (k, fs) (v_levels v) -> Forall (fun f => fm_level f = k) fs).
+  { intros k fs Hi. apply (Nin_lookup _ _ _ (wi_ls v Hw)) in Hi. pose proof (wi_lf v Hw k fs Hi) as Hf.
+    rewrite Forall_forall in *. intros x Hx. now apply Hf. }
+  split.
+  - intro lv. rewrite level_files_nonfile.
+    + unfold A1. destruct (level_adds_files (v_levels v) empty_version lv HL) as [H1 _]. rewrite H1.
+      cbn [level_files empty_version v_levels lookup app]. rewrite files_of_sorted by apply (wi_ls v Hw). reflexivity.
+    + unfold R. rewrite !forallb_app. cbn [forallb is_file_edit negb andb].
+      repeat (apply andb_true_iff; split); apply forallb_forall; intros x Hx; apply in_map_iff in Hx;
+        destruct Hx as [y [<- _]]; reflexivity.
+  - assert (Hr1 : rest_of A1 = rest_of empty_version).
+    { unfold A1. now destruct (level_adds_files (v_levels v) empty_version 0 HL) as [_ H2]. }
+    rewrite (rest_congr_all R _ _ Hr1). unfold R. clear Hr1 A1 R HL.
+    rewrite apply_all_app. cbn [apply_all fold_left apply empty_version v_levels v_vlogs v_heads v_rafts v_regions].
+    set (E1 := {| v_levels := []; v_logseg := v_logseg v; v_logoff := v_logoff v; v_vlogs := []; v_heads := [];
+                  v_rafts := []; v_regions := [] |}).
+    fold (apply_all E1 (map upd_edit (v_vlogs v) ++ map head_edit (v_heads v) ++ map raft_edit (v_rafts v) ++
+                         map region_edit_of (v_regions v))).
+    rewrite apply_all_app, apply_upds; [|reflexivity|apply (wi_vs v Hw)|].
+    2:{ intros k m Hi. apply (Pin_lookup _ _ _ (wi_vs v Hw)) in Hi. now destruct (wi_vl v Hw k m Hi). }
+    rewrite apply_all_app, apply_heads; cbn [set_vlog v_vlogs v_heads E1 app]; [|apply (wi_vs v Hw)|apply (wi_hs v Hw)|].
+    2:{ intros b h Hi. apply (Nin_lookup _ _ _ (wi_hs v Hw)) in Hi. exact (wi_hd v Hw b h Hi). }
+    rewrite apply_all_app, apply_rafts; cbn [set_vlog set_rafts v_rafts app]; [|apply (wi_rs v Hw)|].
+    2:{ intros g r Hi. apply (Nin_lookup _ _ _ (wi_rs v Hw)) in Hi. now destruct (wi_rf v Hw g r Hi). }
+    rewrite apply_regions; cbn [set_vlog set_rafts set_regions v_regions app]; [|apply (wi_gs v Hw)|].
+    2:{ intros i m Hi. apply (Nin_lookup _ _ _ (wi_gs v Hw)) in Hi. now destruct (wi_rg v Hw i m Hi). }
+    reflexivity.
+Qed.
+
+(** * 7. Snapshot edits are encodable; C15_snapshot *)
+
+Lemma version_eq_sym a b : version_eq a b -> version_eq b a.
+Proof. rewrite !version_eq_alt. intros [H1 H2]. split; [intro lv; now rewrite H1|congruence]. Qed.
+
+Lemma small_payload e n : blen (enc_edit_body e) <= n -> n < 4294967000 -> blen (enc_edit_payload e) < two32.
+Proof. intros H1 H2. rewrite blen_payload. unfold two32. lia. Qed.
+
+Ltac putb := repeat match goal with |- context [blen (put_uvarint ?x)] =>
+  let H := fresh "Hp" in pose proof (blen_put x) as H; generalize dependent (blen (put_uvarint x)); intros end.
+
+Lemma snapshot_edits_ok v : winv v -> Forall edit_ok (snapshot_edits v).
+Proof.
+  intro Hw. rewrite snapshot_edits_shape. repeat (apply Forall_app; split).
+  - unfold level_adds. rewrite Forall_forall. intros e He. apply in_concat in He. destruct He as [l [Hl He]].
+    apply in_map_iff in Hl. destruct Hl as [[k fs] [<- Hi]]. apply in_map_iff in He. destruct He as [f [<- Hf]].
+    cbn [snd] in Hf. apply (proj1 (in_sort f fs)) in Hf.
+    apply (Nin_lookup _ _ _ (wi_ls v Hw)) in Hi. pose proof (wi_lf v Hw k fs Hi) as HF.
+    rewrite Forall_forall in HF. now destruct (HF f Hf).
+  - constructor; [|constructor]. destruct (wi_log v Hw) as [H1 H2]. split; [split; assumption|].
+    apply (small_payload _ 20); [|lia]. cbn [enc_edit_body]. rewrite blen_app. putb. lia.
+  - rewrite Forall_forall. intros e He. apply in_map_iff in He. destruct He as [[k m] [<- Hi]].
+    apply (Pin_lookup _ _ _ (wi_vs v Hw)) in Hi. destruct (wi_vl v Hw k m Hi) as [_ Hok].
+    split; [exact Hok|]. apply (small_payload _ 31); [|lia]. unfold upd_edit. cbn [snd enc_edit_body].
+    rewrite !blen_app, blen_cons, blen_nil. putb. lia.
+  - rewrite Forall_forall. intros e He. apply in_map_iff in He. destruct He as [[b h] [<- Hi]].
+    apply (Nin_lookup _ _ _ (wi_hs v Hw)) in Hi. destruct (wi_hd v Hw b h Hi) as (_ & _ & Hl).
+    destruct (wi_vl v Hw _ h Hl) as [_ Hok].
+    split; [exact Hok|]. apply (small_payload _ 30); [|lia]. unfold head_edit. cbn [snd enc_edit_body].
+    rewrite !blen_app. putb. lia.
+  - rewrite Forall_forall. intros e He. apply in_map_iff in He. destruct He as [[g r] [<- Hi]].
+    apply (Nin_lookup _ _ _ (wi_rs v Hw)) in Hi. destruct (wi_rf v Hw g r Hi) as [_ Hok].
+    split; [exact Hok|]. apply (small_payload _ 120); [|lia]. unfold raft_edit. cbn [snd enc_edit_body].
+    rewrite !blen_app. putb. lia.
+  - rewrite Forall_forall. intros e He. apply in_map_iff in He. destruct He as [[i m] [<- Hi]].
+    apply (Nin_lookup _ _ _ (wi_gs v Hw)) in Hi. now destruct (wi_rg v Hw i m Hi).
+Qed.
+
+Lemma snapshot_version_eq v :
+  winv v -> lnodup v ->
+  version_eq (apply_all empty_version (snapshot_edits v)) v /\ lnodup (apply_all empty_version (snapshot_edits v)).
+Proof.
+  intros Hw Hn. destruct (snapshot_rebuilds v Hw) as [H1 H2]. split.
+  - apply version_eq_alt. split; [|exact H2]. intro lv. rewrite H1.
+    apply sort_sorted; [apply fsorted_sort|apply nodup_sort, Hn].
+  - intro lv. rewrite H1. apply nodup_sort, Hn.
+Qed.
+
+(** C15_snapshot *)
+Lemma snapshot_reload v :
+  winv v -> lnodup v ->
+  exists v', replay_manifest (enc_all (snapshot_edits v)) = RpOk v' /\ version_eq v' v.
+Proof.
+  intros Hw Hn. exists (apply_all empty_version (snapshot_edits v)). split.
+  - apply replay_enc. now apply snapshot_edits_ok.
+  - now apply snapshot_version_eq.
+Qed.
+
+(** * 8. The manager: reload after any number of rewrites *)
+
+Lemma man_get_set fs id b id' : man_get (man_set fs id b) id' = if id' =? id then Some b else man_get fs id'.
+Proof. unfold man_get, man_set. cbn [f_man]. apply Nlookup_upsert. Qed.
+
+Record minv (m : mgr) (E : list edit) : Prop := {
+  mi_cur : f_current (m_fs m) = Some (m_cur m);
+  mi_sorted : Nsorted (f_man (m_fs m));
+  mi_ds : exists ds, man_get (m_fs m) (m_cur m) = Some (enc_all ds) /\ Forall edit_ok ds /\
+                     version_eq (apply_all empty_version ds) (m_ver m) /\ lnodup (apply_all empty_version ds);
+  mi_ver : m_ver m = state_after E;
+  mi_hist : hist_ok empty_version E;
+  mi_free : forall id, m_next m <= id -> man_get (m_fs m) id = None;
+  mi_lt : m_cur m < m_next m
+}.
+
+Lemma minv_create thr : minv (create_new thr) [].
+Proof.
+  constructor; cbn; try reflexivity; try exact I.
+  - split; [constructor|exact I].
+  - exists []. split; [reflexivity|split; [constructor|split; [apply version_eq_refl|apply lnodup_empty]]].
+  - intros id H. unfold man_get. cbn. destruct (id =? 1) eqn:E; [lia|reflexivity].
+Qed.
+
+Lemma state_winv E : hist_ok empty_version E -> winv (state_after E) /\ lnodup (state_after E).
+Proof.
+  intro H. split.
+  - apply winv_apply_all; [apply winv_empty|eapply hist_ok_edits; eauto].
+  - apply lnodup_apply_all; [apply lnodup_empty|exact H].
+Qed.
+
+Lemma minv_appended m E batch :
+  minv m E -> hist_ok (m_ver m) batch -> minv (appended m batch) (E ++ batch).
+Proof.
+  intros Hm Hh. destruct Hm as [Hc Hs [ds (Hg & Hok & Hq & Hn)] Hv Hhist Hfree Hlt].
+  assert (HhE : hist_ok empty_version (E ++ batch)).
+  { apply hist_ok_app. split; [exact Hhist|]. fold (state_after E). now rewrite <- Hv. }
+  destruct (state_winv E Hhist) as [HwV HnV]. rewrite <- Hv in HwV, HnV.
+  destruct (version_eq_apply_all batch (m_ver m) (apply_all empty_version ds)
+              (version_eq_sym _ _ Hq) HnV Hn Hh) as [Hq' Hh'].
+  constructor; cbn [appended m_fs m_cur m_next m_ver]; try assumption.
+  - now apply Nsorted_upsert.
+  - exists (ds ++ batch). rewrite man_get_set, N.eqb_refl. unfold cur_bytes. rewrite Hg, enc_all_app.
+    split; [reflexivity|]. split; [apply Forall_app; split; [exact Hok|eapply hist_ok_edits; eauto]|].
+    rewrite apply_all_app. split; [now apply version_eq_sym|]. now apply lnodup_apply_all.
+  - rewrite Hv. unfold state_after. now rewrite apply_all_app.
+  - intros id Hid. rewrite man_get_set. destruct (id =? m_cur m) eqn:E1; [lia|now apply Hfree].
+Qed.
+
+Lemma new_id_next m E : minv m E -> new_id m = m_next m.
+Proof.
+  intro Hm. unfold new_id. cbn [next_free]. now rewrite (mi_free m E Hm (m_next m)) by lia.
+Qed.
+
+Lemma minv_rewritten m E : minv m E -> minv (rewritten m) E.
+Proof.
+  intro Hm. pose proof (new_id_next m E Hm) as Hid. destruct Hm as [Hc Hs [ds (Hg & Hok & Hq & Hn)] Hv Hhist Hfree Hlt].
+  destruct (state_winv E Hhist) as [HwV HnV]. rewrite <- Hv in HwV, HnV.
+  unfold rewritten. rewrite Hid.
+  constructor; cbn [m_fs m_cur m_next m_ver man_del set_tmp set_current man_set f_current f_man f_tmp]; try assumption.
+  - reflexivity.
+  - apply Nsorted_remove. now apply Nsorted_upsert.
+  - exists (snapshot_edits (m_ver m)). unfold man_get. cbn [f_man].
+    rewrite Nlookup_remove by now apply Nsorted_upsert.
+    replace (m_next m =? m_cur m) with false by lia. rewrite Nlookup_upsert, N.eqb_refl.
+    split; [reflexivity|]. split; [now apply snapshot_edits_ok|]. now apply snapshot_version_eq.
+  - intros id H. unfold man_get. cbn [f_man]. rewrite Nlookup_remove by now apply Nsorted_upsert.
+    destruct (id =? m_cur m); [reflexivity|]. rewrite Nlookup_upsert.
+    replace (id =? m_next m) with false by lia. apply Hfree. lia.
+  - lia.
+Qed.
+
+Lemma minv_log_edits m E batch :
+  minv m E -> hist_ok (m_ver m) batch -> minv (log_edits m batch) (E ++ batch).
+Proof.
+  intros Hm Hh. unfold log_edits. pose proof (minv_appended m E batch Hm Hh) as H1.
+  destruct (needs_rewrite (appended m batch)); [now apply minv_rewritten|exact H1].
+Qed.
+
+(** histories given as batches (one LogEdits call each) *)
+Lemma minv_log_all batches : forall m E,
+  minv m E -> hist_ok (m_ver m) (concat batches) -> minv (log_all m batches) (E ++ concat batches).
+Proof.
+  induction batches as [|b bs IH]; intros m E Hm Hh.
+  - cbn. now rewrite app_nil_r.
+  - cbn [concat] in Hh. apply hist_ok_app in Hh as [Hb Hbs].
+    cbn [log_all fold_left concat]. rewrite app_assoc. apply IH.
+    + now apply minv_log_edits.
+    + pose proof (minv_log_edits m E b Hm Hb) as H1. rewrite (mi_ver _ _ H1). unfold state_after.
+      rewrite apply_all_app. fold (state_after E). now rewrite <- (mi_ver _ _ Hm).
+Qed.
+
+(** C15_reload *)
+Lemma reload_eq thr batches :
+  hist_ok empty_version (concat batches) ->
+  let m := log_all (create_new thr) batches in
+  m_ver m = state_after (concat batches) /\
+  exists v', reload (m_fs m) = RpOk v' /\ version_eq v' (m_ver m).
+Proof.
+  intro Hh. cbn zeta.
+  pose proof (minv_log_all batches (create_new thr) [] (minv_create thr) Hh) as Hm. cbn [app] in Hm.
+  split; [exact (mi_ver _ _ Hm)|].
+  destruct (mi_ds _ _ Hm) as [ds (Hg & Hok & Hq & _)].
+  exists (apply_all empty_version ds). split; [|exact Hq].
+  unfold reload. rewrite (mi_cur _ _ Hm), Hg. now apply replay_enc.
+Qed.
